@@ -85,6 +85,7 @@ class Truth:
         self.must = collections.defaultdict(set)
         self.opt = collections.defaultdict(set)
         self.inflight = collections.Counter()
+        self.why = {}  # (algorithm, target) -> why it is owed: request | new_value | version | timer
         self.converting = set()  # released by the scheduler, not yet turned into a task message by the farm
         self.queued = []  # released, not handed: (jobid, target, runid)
         self.handed = {}  # unit -> worker conn id  (handed, unanswered)
@@ -126,7 +127,10 @@ class Truth:
         for alg in algs:
             if alg not in self.ref.kind:
                 continue
-            self.must[alg] |= self.targets_for(alg, targets)
+            ts = self.targets_for(alg, targets)
+            self.must[alg] |= ts
+            for t in ts:
+                self.why.setdefault((alg, t), why)
             self.runid_of[alg] = runid
 
     def reload(self):
@@ -134,6 +138,7 @@ class Truth:
         self.must.clear()
         self.opt.clear()
         self.inflight.clear()
+        self.why.clear()
         self.converting.clear()
         self.queued.clear()
         self.handed.clear()
@@ -496,6 +501,7 @@ class PipeWorld:
         chronicle.append = append
         self.sim.after_step.append(self.after_step)
         self.active_at_step_start = False
+        import dawgie
         import dawgie.db
 
         real_next = _orig(dawgie.db, 'next')
@@ -508,6 +514,20 @@ class PipeWorld:
             return real_next()
 
         dawgie.db.next = db_next
+        # what introspection (navel gaze) learns about past resource use: chooser-chosen hints, some of them 'cloud'
+        import dawgie.pl.resources as resources
+
+        def distribution(_metrics):
+            out = {}
+            for a in w.spec.algs:
+                for t in [ALL] + list(TARGET_POOL):
+                    if w.ch.flip('gen.insight', 1, 6):
+                        out[f'{t}.{a.full}'] = resources.HINT(cpu=1.0, io=0, memory=0, pages=0,
+                                                             summary=[dawgie.Distribution.cloud, dawgie.Distribution.cluster][w.ch.choose('gen.insight_where', 2)])
+            w.probes['insights_given'] += len(out)
+            return out
+
+        resources.distribution = distribution
 
     def nodes(self):
         import dawgie.pl.schedule as schedule
@@ -563,7 +583,10 @@ class PipeWorld:
         expect = aegen.unrecorded(self.spec, persisted)
         for a in self.spec.algs:
             if a.full in expect:
-                G.must[a.full] |= ({ALL} if a.kind == 'analysis' else set(known))
+                ts = {ALL} if a.kind == 'analysis' else set(known)
+                G.must[a.full] |= ts
+                for t in ts:
+                    G.why[(a.full, t)] = 'version'
         self.probes['build'] += 1
         if self.probes['build'] > 1:
             self.probes['rebuild'] += 1
@@ -706,11 +729,22 @@ class PipeWorld:
                 import dawgie.pl.farm as farm
 
                 anc = {a: (before.get(a), sorted(G.must[a]), {k: v for k, v in G.inflight.items() if k[0] == a}) for a in sorted(self.ref.anc[alg])}
+                self.also_owed(alg, t, 'not released by the dispatch at which all its upstream work was idle')
                 self.violate('C04', 'runnable_not_released', f'{self.ref.kind[alg]}',
                              f'{alg}[{t}] is pending, all upstream idle, not released by this dispatch; '
                              f'code todo/doing/do before={before.get(alg)}; upstream (code state, owed, in flight): {anc}; '
                              f'being dispatched: {[j.tag for j in farm._jobs]}')
         return jobs
+
+    def also_owed(self, alg, t, what):
+        """an obligation that is not honoured also breaks the property that created it"""
+        why = self.G.why.get((alg, t))
+        if why == 'new_value':
+            self.violate('C02', 'rerun_after_new_value_not_released', self.ref.kind[alg],
+                         f'{alg}[{t}] must run again because one of its declared inputs was reported new, but it is {what}')
+        elif why == 'version':
+            self.violate('C15', 'new_version_never_released', self.ref.kind[alg],
+                         f'{alg}[{t}] was owed at the (re)load because of a version that is not persisted, but it is {what}')
 
     def blocked(self, alg, t):
         G = self.G
@@ -757,6 +791,7 @@ class PipeWorld:
                              f'{alg}[{t}] released while {bad}')
         G.must[alg].discard(t)
         G.opt[alg].discard(t)
+        G.why.pop((alg, t), None)
         G.inflight[(alg, t)] += 1
         G.converting.add((alg, t))
 
@@ -902,7 +937,21 @@ class PipeWorld:
         current = (not stale) and G.unit_epoch.get(unit) == G.epoch and unit in G.handed
         before, qb = self.snap()
         nchron = len(self.chron)
-        self.real['_res'](msg)
+        escaped = None
+        try:
+            self.real['_res'](msg)
+        except Exception as e:  # noqa  (judged like any other outcome, then handed on to the reactor as the real code would see it)
+            escaped = e
+            self.probes['exception_escaped_reply_handling'] += 1
+            self.op(f'exception escaped the handling of the reply: {e!r}')
+        try:
+            self.judge_reply(msg, unit, alg, t, stale, current, before, qb, nchron)
+        finally:
+            if escaped is not None:
+                raise escaped
+
+    def judge_reply(self, msg, unit, alg, t, stale, current, before, qb, nchron):
+        G, ref = self.G, self.ref
         after, qa = self.snap()
         status = {True: 'success', False: 'failure', None: 'invalid'}[msg.success]
         G.replies += 1
@@ -953,9 +1002,11 @@ class PipeWorld:
                     owed[y] |= G.targets_for(y, {t})
             for y, ts in owed.items():
                 G.must[y] |= ts
+                for t_ in ts:
+                    G.why[(y, t_)] = 'new_value'  # the latest cause wins: it must run again *after this report*
                 G.runid_of[y] = None if any(v in ref.feedbacks for v in newvals) else msg.runid
                 # C03 (iii) second half: propagation is visible at once
-                have = set(after[y][0]) | after[y][1]
+                have = set(after[y][0])  # pending; an execution already in flight started before this report and does not count
                 missing = ts - have
                 if missing:
                     self.violate('C02', 'new_value_not_propagated', ref.kind[y],
@@ -1208,9 +1259,13 @@ class PipeWorld:
         ticks = (outstanding + depth + 2) * 2 + 4
         worst = max(self.delays)
         horizon = self.sim.now + ticks * (5.0 + worst)
+        waiters = self.start_waiters() if cfg.get('waiters', True) and self.ch.flip('tail.waiters', 1, 2) else {}
         r = self.sim.run(until=lambda: G.idle() and not G.handed, max_steps=self.sim.steps + cfg['max_steps'] * 3,
                          max_time=horizon)
         self.tail_result = r
+        if waiters and r == 'until' and not (self.dead_units or [u for u in G.handed]):
+            self.check_waiters(waiters)
+        self.stop_waiters(waiters)
         working = {(wk.task.jobid, wk.task.target or ALL) for wk in self.workers if wk.state == 'working' and wk.task}
         lost = [u for u in G.handed if (u[0], u[1]) not in working]
         if self.dead_units or lost:
@@ -1227,11 +1282,53 @@ class PipeWorld:
                 pass
         elif r == 'time':
             stuck = {a: sorted(t) for a, t in G.must.items() if t}
+            for a, ts in stuck.items():
+                for t in ts:
+                    self.also_owed(a, t, 'never released although the pipeline has nothing else to do')
             self.violate('C04', 'no_quiescence', 'must_outstanding' if stuck else 'inflight',
                          f'after the last event, with workers answering everything, still owed {stuck} '
                          f'in flight {dict(G.inflight)} after {ticks} dispatch periods; que={[j.tag for j in schedule.que]}')
         else:
             self.probes['tail_budget_' + r] += 1
+
+    # -- C04: every waiter on 'queue empty' / 'nothing executing' / 'crew idle' is eventually satisfied ------------
+    POLL_SCALE = 10.0  # the waiters poll every 0.2 s; here every 2 s of virtual time (fewer steps, same logic)
+
+    def start_waiters(self):
+        """the real polling bodies of the submit waiters, started while work is still outstanding"""
+        fsm = self.fsm
+        out = {}
+        for name, ev, body in (('todo', fsm.wait_on_todo, fsm.is_todo_done), ('doing', fsm.wait_on_doing, fsm.is_doing_done),
+                               ('crew', fsm.wait_on_crew, fsm.is_crew_done)):
+            ev.clear()  # 'somebody is waiting'
+            th = self.sim.spawn(f'waiter:{name}', body)
+            th.poll_scale = self.POLL_SCALE
+            out[name] = (th, ev)
+        self.probes['waiters_started'] += 1
+        return out
+
+    def check_waiters(self, waiters):
+        import dawgie.pl.schedule as schedule
+
+        sim = self.sim
+        sim.run(until=lambda: all(th.done for th, _ev in waiters.values()), max_steps=sim.steps + 400,
+                max_time=sim.now + 2 * 0.2 * self.POLL_SCALE + 0.5)
+        for name, (th, _ev) in waiters.items():
+            if not th.done and self.G.idle() and not self.G.handed and self.fsm.is_pipeline_active():
+                self.violate('C04', 'waiter_not_satisfied', name,
+                             f'nothing is pending, executing or busy and the pipeline is active, but the waiter on "{name}" is still polling two polls later '
+                             f'(work queue {[j.tag for j in schedule.que]}, doing view {schedule.view_doing()})')
+            elif th.done:
+                self.probes['waiter_satisfied'] += 1
+            if th.exc is not None:
+                self.violate('C04', 'waiter_not_satisfied', f'{name}:raised', f'the waiter on "{name}" died: {th.exc!r}')
+
+    def stop_waiters(self, waiters):
+        for _name, (th, ev) in waiters.items():
+            ev.set()
+        if waiters:
+            self.sim.run(until=lambda: all(th.done for th, _ev in waiters.values()), max_steps=self.sim.steps + 200,
+                         max_time=self.sim.now + 3 * 0.2 * self.POLL_SCALE)
 
     def final_checks(self):
         # C18 (a): the journal on disk holds exactly the appended entries
